@@ -9,6 +9,7 @@ from typing import Any, Dict, List, Optional, Tuple
 
 from .. import alg, bits, docs, layout, packed
 from ..bits import BV, BitEval, Unsupported
+from ..cfg import CFG
 from ..layout import LenEval, Slot, Unknown
 from ..model import AnchorMissing, ClassInfo, NotConst, Repo, attr_chain, norm, stmts_of, walk_no_nested
 
@@ -763,39 +764,52 @@ def envelope_chunk(repo: Repo, rep, P: str, tables):
     def is_points_piece(v: ast.AST) -> bool:
         return isinstance(v, ast.Call) and isinstance(v.func, ast.Attribute) and v.func.attr == "join" and v.args \
             and isinstance(v.args[0], (ast.GeneratorExp, ast.ListComp))
-    for st in stmts_of(wfn):
-        val = None
-        if isinstance(st, ast.Assign) and dvar and norm(st.targets[0]) == dvar:
-            val = st.value
-        elif isinstance(st, ast.AugAssign) and dvar and norm(st.target) == dvar and isinstance(st.op, ast.Add):
-            val = st.value
-        if val is not None:
-            pieces = []
+    from ..packed import single_defs, resolve_names
+    wdefs = single_defs(wfn)
+    accumulated = dvar is not None and any(isinstance(st, ast.AugAssign) and norm(st.target) == dvar for st in stmts_of(wfn))
 
-            def split(v):
-                if isinstance(v, ast.BinOp) and isinstance(v.op, ast.Add):
-                    split(v.left)
-                    split(v.right)
-                else:
-                    pieces.append(v)
-            split(val)
-            for v in pieces:
-                if is_points_piece(v):
-                    loop_part = v
-                elif isinstance(v, ast.Call) and norm(v.func) in ("pack", "struct.pack"):
-                    try:
-                        fmt = repo.fold(v.args[0], ci=env)
-                        parts.append(("pack", struct.calcsize(fmt), [fmt] + [norm(a) for a in v.args[1:]]))
-                    except NotConst:
-                        parts.append(("unknown", -1, [norm(v)]))
-                else:
-                    try:
-                        b = repo.fold(v, ci=env)
-                        parts.append(("zeros" if set(b) <= {0} else "const", len(b), [repr(b)]))
-                    except (NotConst, TypeError):
-                        parts.append(("unknown", -1, [norm(v)]))
-        if isinstance(st, ast.For):
-            loop_part = st
+    def take(val):
+        nonlocal loop_part
+        pieces = []
+
+        def split(v):
+            if isinstance(v, ast.BinOp) and isinstance(v.op, ast.Add):
+                split(v.left)
+                split(v.right)
+            elif isinstance(v, ast.Name) and v.id in wdefs and v.id != dvar:
+                split(wdefs[v.id])
+            else:
+                pieces.append(v)
+        split(val)
+        for v in pieces:
+            if is_points_piece(v):
+                loop_part = v
+            elif isinstance(v, ast.Call) and norm(v.func) in ("pack", "struct.pack"):
+                try:
+                    fmt = repo.fold(v.args[0], ci=env)
+                    parts.append(("pack", struct.calcsize(fmt), [fmt] + [norm(a) for a in v.args[1:]]))
+                except NotConst:
+                    parts.append(("unknown", -1, [norm(v)]))
+            elif isinstance(v, ast.Call) and norm(v.func) == "bytes" and len(v.args) == 1 and not v.keywords \
+                    and isinstance(v.args[0], ast.Constant) and isinstance(v.args[0].value, int):
+                parts.append(("zeros", v.args[0].value, [f"bytes({v.args[0].value})"]))
+            else:
+                try:
+                    b = repo.fold(v, ci=env)
+                    parts.append(("zeros" if set(b) <= {0} else "const", len(b), [repr(b)]))
+                except (NotConst, TypeError):
+                    parts.append(("unknown", -1, [norm(v)]))
+    if accumulated:
+        for st in stmts_of(wfn):
+            if isinstance(st, ast.Assign) and norm(st.targets[0]) == dvar:
+                take(st.value)
+            elif isinstance(st, ast.AugAssign) and norm(st.target) == dvar and isinstance(st.op, ast.Add):
+                take(st.value)
+            if isinstance(st, ast.For):
+                loop_part = st
+    elif pl is not None:
+        dvar = None
+        take(pl)
     header = sum(p[1] for p in parts)
     # reader
     unpack_stmt = None
@@ -926,6 +940,8 @@ def envelope_chunk(repo: Repo, rep, P: str, tables):
         if norm(e) == "self.range[0]":
             return alg.Poly.sym("lo")
         return None
+    if wy is not None:
+        wy = resolve_names(wy, wdefs)
     try:
         wp, rp = alg.to_poly(wy, leafw), alg.to_poly(ry, leafr)
         comp = rp.subst("raw", wp)
@@ -987,6 +1003,15 @@ def envelope_chunk(repo: Repo, rep, P: str, tables):
 
 
 # -------------------------------------------------------------------------------- R4
+def order_of_param(e: ast.expr, sp: str) -> bool:
+    """`e` is a recognised reordering / selection of the parameter `sp` (reversed(value), value[1:], ...)."""
+    if isinstance(e, ast.Call) and norm(e.func) in ("reversed", "sorted") and e.args:
+        return norm(e.args[0]) == sp or order_of_param(e.args[0], sp)
+    if isinstance(e, ast.Subscript) and isinstance(e.slice, ast.Slice):
+        return norm(e.value) == sp or order_of_param(e.value, sp)
+    return False
+
+
 def note_map(repo: Repo, rep, P: str):
     samp, W, R = _sampler(repo)
     nm = samp.nested["NoteSampleMap"]
@@ -997,8 +1022,56 @@ def note_map(repo: Repo, rep, P: str):
     gs = " ".join(norm(x) for x in stmts_of(g))
     ss = " ".join(norm(x) for x in stmts_of(s))
     sp = [a.arg for a in s.args.args if a.arg != "self"][0]
-    ss_n = "".join(ss.split()).replace("(k,v)", "k,v")
-    if gs == "return bytes(self.values())" and ss_n == f"fork,vinzip(self.keys(),{sp}):self[k]=v":
+
+    def order_of(e: ast.expr, what: str) -> str:
+        """'same' when `e` enumerates the map's keys / values in the map's own order, 'reordered' for a recognised reordering or
+        selection, '?' otherwise."""
+        while isinstance(e, ast.Call) and norm(e.func) in ("list", "tuple", "iter") and len(e.args) == 1:
+            e = e.args[0]
+        t = norm(e)
+        if what == "keys" and t in ("self.keys()", "self"):
+            return "same"
+        if what == "values" and t == "self.values()":
+            return "same"
+        if isinstance(e, (ast.ListComp, ast.GeneratorExp)) and len(e.generators) == 1 and not e.generators[0].ifs \
+                and isinstance(e.generators[0].target, ast.Name):
+            v = e.generators[0].target.id
+            inner = order_of(e.generators[0].iter, "keys")
+            if what == "values" and norm(e.elt) == f"self[{v}]":
+                return inner
+            inner_same = order_of(e.generators[0].iter, what)
+            if norm(e.elt) == v:
+                return inner_same
+        if isinstance(e, ast.Call) and norm(e.func) in ("reversed", "sorted") and e.args:
+            return "reordered" if order_of(e.args[0], what) in ("same", "reordered") else "?"
+        if isinstance(e, ast.Subscript) and isinstance(e.slice, ast.Slice):
+            return "reordered" if order_of(e.value, what) in ("same", "reordered") else "?"
+        return "?"
+    g_ret = [st.value for st in stmts_of(g) if isinstance(st, ast.Return)]
+    g_ord = "?"
+    if len(stmts_of(g)) == 1 and g_ret and isinstance(g_ret[0], ast.Call) and norm(g_ret[0].func) in ("bytes", "bytearray") and len(g_ret[0].args) == 1:
+        g_ord = order_of(g_ret[0].args[0], "values")
+    s_ord = "?"
+    body = [st for st in stmts_of(s) if not (isinstance(st, ast.Expr) and isinstance(st.value, ast.Constant))]
+    pairs = None
+    if len(body) == 1 and isinstance(body[0], ast.For) and isinstance(body[0].target, ast.Tuple) and len(body[0].target.elts) == 2 \
+            and all(isinstance(x, ast.Name) for x in body[0].target.elts) and len(body[0].body) == 1 and not body[0].orelse:
+        k, v = (x.id for x in body[0].target.elts)
+        st = body[0].body[0]
+        if isinstance(st, ast.Assign) and len(st.targets) == 1 and norm(st.targets[0]) == f"self[{k}]" and norm(st.value) == v:
+            pairs = body[0].iter
+    elif len(body) == 1 and isinstance(body[0], ast.Expr) and isinstance(body[0].value, ast.Call) and norm(body[0].value.func) == "self.update" \
+            and len(body[0].value.args) == 1 and not body[0].value.keywords:
+        pairs = body[0].value.args[0]
+        while isinstance(pairs, ast.Call) and norm(pairs.func) in ("dict", "list", "tuple") and len(pairs.args) == 1 and not pairs.keywords:
+            pairs = pairs.args[0]
+    if isinstance(pairs, ast.Call) and norm(pairs.func) == "zip" and len(pairs.args) == 2 and not pairs.keywords:
+        ko = order_of(pairs.args[0], "keys")
+        s_ord = ko if norm(pairs.args[1]) == sp else ("reordered" if ko != "?" and order_of_param(pairs.args[1], sp) else "?")
+    if "?" in (g_ord, s_ord):
+        rep.inconclusive(f"{P}.R4", f"{rel}:Sampler.NoteSampleMap.bytes", f"{gs} / {ss}", "note map (de)serialisation shape not recognised",
+                         f"{rel}:{g.lineno}")
+    elif g_ord == "same" and s_ord == "same":
         rep.ok(f"{P}.R4", f"{rel}:Sampler.NoteSampleMap.bytes", "bytes(self.values()) ↔ zip(self.keys(), value)", "same key order both ways")
     else:
         rep.violation(f"{P}.R4", f"{rel}:Sampler.NoteSampleMap.bytes", f"{gs} / {ss}",
@@ -1135,9 +1208,27 @@ def slot_index_rule(repo: Repo, rep, P: str):
                       "sequence moves samples to lower slots when earlier slots are empty (the note map then points at the wrong samples)",
                       f"{rel}:{fn.lineno}")
     # reader: slot index written back at the same index
-    lm = norm(_nm(repo, samp, "load_sample_meta"))
-    ld = norm(_nm(repo, samp, "load_sample_data"))
-    if "sample = self.samples[index] = self.Sample()" in lm and "sample = self.samples[index]" in ld:
+    from ..packed import single_defs, resolve_names
+    lmf, ldf = _nm(repo, samp, "load_sample_meta"), _nm(repo, samp, "load_sample_data")
+    lm = norm(lmf)
+    defs = single_defs(lmf)
+    filled = None            # the local whose fields the reader fills, stored into self.samples[...]
+    for n in walk_no_nested(lmf):
+        if isinstance(n, ast.Assign) and any(isinstance(t, ast.Subscript) and norm(t.value) == "self.samples" for t in n.targets):
+            val = resolve_names(n.value, defs)
+            if isinstance(val, ast.Call) and norm(val.func) == "self.Sample" and not val.args:
+                names = [t.id for t in n.targets if isinstance(t, ast.Name)] + ([n.value.id] if isinstance(n.value, ast.Name) else [])
+                filled = names[0] if names else None
+    meta_ok = filled is not None and any(isinstance(n, ast.Attribute) and isinstance(n.ctx, ast.Store) and norm(n.value) == filled
+                                         for n in ast.walk(lmf))
+    data_ok = False
+    for n in walk_no_nested(ldf):
+        if isinstance(n, ast.Assign) and len(n.targets) == 1 and isinstance(n.targets[0], ast.Name) and isinstance(n.value, ast.Subscript) \
+                and norm(n.value.value) == "self.samples":
+            v = n.targets[0].id
+            data_ok = any(isinstance(m, ast.Attribute) and isinstance(m.ctx, ast.Store) and norm(m.value) == v and m.attr == "data"
+                          for m in ast.walk(ldf))
+    if meta_ok and data_ok:
         rep.ok(f"{P}.R2", f"{rel}:Sampler.load_sample_meta", "self.samples[index] = self.Sample()", "loaded into the slot its chunk number names")
     else:
         rep.violation(f"{P}.R2", f"{rel}:Sampler.load_sample_meta", lm[:160], "a sample must be stored at the slot index derived from its chunk number", rel)
@@ -1212,6 +1303,85 @@ def sampler_chunk_numbers(repo: Repo, rep, P: str):
     rep.count("sampler_chunk_numbers", n, 16)
 
 
+def _cursor_rule(repo: Repo, R, rd: ast.FunctionDef) -> str:
+    """_read(spec, length, default): on the path that decodes, the bytes are data[index : index + length] and the cursor ends at
+    index + length; on the path that returns the default the cursor is unchanged.  Straight-line symbolic evaluation of every path
+    (private helpers such as a `_peek` inlined), values as polynomials in the entry cursor I and the length L."""
+    from .. import inline
+    fn = inline.normalize(repo, R, rd)
+    params = [a.arg for a in fn.args.args if a.arg != "self"]
+    if len(params) < 2:
+        return "?parameters"
+    lparam = params[1]
+    g = CFG(fn)
+    paths = g.paths(g.entry, [g.exit], max_visits=1, limit=500, labels_excluded=("exc",))
+    if not paths:
+        return "?paths"
+    decoded = 0
+    for path in paths:
+        env: Dict[str, alg.Poly] = {}
+        cur = alg.Poly.sym("I")
+        slices: Dict[str, Tuple[alg.Poly, alg.Poly]] = {}
+        ret = None
+
+        def leaf(e):
+            if norm(e) == "self._index":
+                return cur
+            if isinstance(e, ast.Name) and e.id == lparam:
+                return alg.Poly.sym("L")
+            if isinstance(e, ast.Name) and e.id in env:
+                return env[e.id]
+            return None
+        for nid, lab in path:
+            n = g.nodes[nid]
+            if n.kind != "stmt":
+                continue
+            st = n.ast
+            try:
+                if isinstance(st, ast.Assign) and len(st.targets) == 1:
+                    t, v = st.targets[0], st.value
+                    if isinstance(v, ast.Subscript) and isinstance(v.slice, ast.Slice) and norm(v.value) == "self._data" and isinstance(t, ast.Name):
+                        if v.slice.lower is None or v.slice.upper is None or v.slice.step is not None:
+                            return "?" + norm(st)
+                        slices[t.id] = (alg.to_poly(v.slice.lower, leaf), alg.to_poly(v.slice.upper, leaf))
+                    elif norm(t) == "self._index":
+                        cur = alg.to_poly(v, leaf)
+                    elif isinstance(t, ast.Name):
+                        try:
+                            env[t.id] = alg.to_poly(v, leaf)
+                        except alg.NotAlgebraic:
+                            env.pop(t.id, None)
+                            if isinstance(v, ast.Name) and v.id in slices:
+                                slices[t.id] = slices[v.id]
+                elif isinstance(st, ast.AugAssign) and norm(st.target) == "self._index":
+                    d = alg.to_poly(st.value, leaf)
+                    if isinstance(st.op, ast.Add):
+                        cur = cur + d
+                    elif isinstance(st.op, ast.Sub):
+                        cur = cur - d
+                    else:
+                        return "?" + norm(st)
+                elif isinstance(st, ast.Return):
+                    ret = st.value
+            except alg.NotAlgebraic:
+                return "?" + norm(st)
+        I, L = alg.Poly.sym("I"), alg.Poly.sym("L")
+        unp = [c for c in ast.walk(ret) if isinstance(c, ast.Call) and norm(c.func) in ("unpack", "struct.unpack")] if ret is not None else []
+        if unp:
+            decoded += 1
+            buf = unp[0].args[1] if len(unp[0].args) > 1 else None
+            if not (isinstance(buf, ast.Name) and buf.id in slices):
+                return "?" + norm(ret)
+            lo, hi = slices[buf.id]
+            if lo != I or hi != I + L:
+                return f"decodes data[{lo} : {hi}]"
+            if cur != I + L:
+                return f"cursor ends at {cur}"
+        elif cur != I:
+            return f"default path moves the cursor to {cur}"
+    return "ok" if decoded else "?no decoding path"
+
+
 def helper_siblings(repo: Repo, rep, P: str):
     samp, W, R = _sampler(repo)
     rel = samp.file.rel
@@ -1233,7 +1403,10 @@ def helper_siblings(repo: Repo, rep, P: str):
     else:
         rep.violation(f"{P}.R1", f"{rel}:_StructWriter.char", norm(ch)[:100] if ch else "missing", "char() must emit exactly `width` bytes", rel)
     rd = R.methods.get("_read")
-    if rd is not None and "self._index = new_index" in norm(rd) and "unpack(spec, buf)[0]" in norm(rd):
+    verdict = _cursor_rule(repo, R, rd) if rd is not None else "missing"
+    if verdict == "ok":
         rep.ok(f"{P}.R1", f"{rel}:_StructReader._read", "advances by the field length", nontrivial=False)
+    elif verdict.startswith("?"):
+        rep.inconclusive(f"{P}.R1", f"{rel}:_StructReader._read", verdict[1:], "cursor arithmetic of _read not recognised", rel)
     else:
         rep.violation(f"{P}.R1", f"{rel}:_StructReader._read", "", "_read must advance the cursor by the field length", rel)
